@@ -553,7 +553,9 @@ C14a == [][ev'.e \in {"PollPending", "DialStart"} /\ co[ev'.r].inner \in {"Conne
 \* C04 (iv): cancelling a request that never used a connection does not destroy a pooled connection
 \* (the connection the request had taken from the pool at checkout time survives; connections it never
 \* touched are not affected: the idle list and other requests' handles are unchanged by Cancel)
-C04iv == [][\A c \in Dial : cfg.alive /\ ev'.e = "Cancel" /\ ev'.stage = "checkout" /\ co[ev'.r].h.c = c /\ conn[c].st = "open"
+\* (a shared connection stays in the idle list when a request takes a handle to it, so only the non-shared case
+\* moves custody to the request; a shared handle whose pool entry has meanwhile expired is not pooled any more)
+C04iv == [][\A c \in Dial : cfg.alive /\ ev'.e = "Cancel" /\ ev'.stage = "checkout" /\ co[ev'.r].h.c = c /\ conn[c].st = "open" /\ ~conn[c].h2
                              => Live(c)' > 0]_vars
 C04ivIdle == [][ev'.e = "Cancel" => idle' = idle]_vars
 \* C04 (kept): an open, ready connection that is handed back is kept if there is room or a waiter
